@@ -87,7 +87,10 @@ H1 {"replace": {"atomname": null}}
 [ bonds ]
 O1 +C1 1 0.141 7000
 """
-BIB = "@article{refA,\n author = {Doe, J},\n title = {t},\n journal = {J},\n year = {2020},\n doi = {10.1/x}\n}\n"
+BIB = ("@article{refA,\n author = {Doe, Jane and Mustermann, Erika and Rossi, Mario and Dupont, Jean and Jansen, Jan and Kowalski, Jan and "
+       "Svensson, Sven and Hansen, Hans and Garcia, Juan and Smith, John and Ivanov, Ivan and Novak, Jan and Papadopoulos, Giorgos},\n"
+       " title = {a citation that is much longer than one hundred characters once it has been formatted for the header},\n"
+       " journal = {Journal of Long Author Lists},\n year = {2020},\n doi = {10.1000/very-long-doi-string-0123456789}\n}\n")
 
 
 def canon_mol(mol):
@@ -166,7 +169,20 @@ def round_trip(sx, B):
             return real_write(molecule, outfile, *a, **k)
         out = Path(d) / "out.itp"
         post_error = None
-        with patched(gi.vermouth.gmx.itp, write_molecule_itp=capture), patched(al, tqdm=_Tqdm):
+        handles = []
+        real_open = gi.deferred_open
+
+        def capturing_open(*a, **k):
+            h = real_open(*a, **k)
+            handles.append(h)
+            return h
+
+        class WriterProxy:
+            def write(self_inner):
+                sx.claim(len(handles) >= 1 and all(h.closed for h in handles), "the staged file is complete (closed) when it is moved into place")
+                return DeferredFileWriter().write()
+        with patched(gi.vermouth.gmx.itp, write_molecule_itp=capture), patched(al, tqdm=_Tqdm), \
+                patched(gi, deferred_open=capturing_open, DeferredFileWriter=WriterProxy):
             try:
                 gi.gen_params(name="mol", outpath=out, inpath=[Path(d) / "in.ff", Path(d) / "in.bib"], **kw)
             except KeyError as err:
